@@ -53,6 +53,7 @@ class Run:
         self.rng = ctx.rng
         self.classes = C.discover()
         self.cases = {"construct": [], "to_dict": [], "to_url": [], "from_url": []}
+        self.culprits = {}
         self.cells = 0
 
     # ---- is this (class, message dict) inside the modelled fragment?
@@ -73,36 +74,119 @@ class Run:
         inp = "(%s, %s)" % (coq_str(name), term_in)
         self.cases[kind].append(("(%s, %s)" % (inp, coq_res(outcome, okf)), inp, rec))
 
-    def violation(self, fmt, cls, key, before, after, exc, rec):
-        """classify an oracle failure into a stable signature"""
-        ent = spec_for(cls, key) if key is not None else None
-        kind = "extra" if ent is None else kind_sig(ent)
-        if exc is not None:
-            symptom = "exception-" + exc
-        else:
-            bk, ak = set(before), set(after)
-            if key in bk and key not in ak:
-                symptom = "dropped"
-            elif key in ak and key not in bk:
-                symptom = "added"
-            elif key in bk and not strict_eq(before[key], after[key]):
-                symptom = "altered"
+    # ---- the oracle: one serialise / deserialise cycle on the real class
+    def roundtrip(self, cls, m, fmt, lax=False):
+        """("ok", message after) | ("exc", exception class, stage) | ("refused", ...)"""
+        m = copy.deepcopy(m)
+        if lax:
+            m.lax = True
+        try:
+            if fmt == "dict":
+                w = m.to_dict()
+            elif fmt == "json":
+                w = m.to_json()
             else:
-                # the difference is somewhere else: name the first differing key
-                diff = sorted(k for k in bk | ak if k not in bk or k not in ak or not strict_eq(before[k], after[k]))
-                key = diff[0] if diff else key
-                ent = spec_for(cls, key) if key is not None else None
-                kind = "extra" if ent is None else kind_sig(ent)
-                symptom = "other-key"
-        sig = "%s:%s:%s" % (fmt, kind, symptom)
+                w = m.to_urlencoded()
+        except Exception as e:   # noqa
+            return ("exc", type(e).__name__, "serialise")
+        try:
+            if fmt == "dict":
+                m2 = cls(**copy.deepcopy(w))
+            elif fmt == "json":
+                m2 = cls().from_json(w)
+            else:
+                m2 = cls().from_urlencoded(w)
+        except Exception as e:   # noqa
+            return ("exc", type(e).__name__, "deserialise")
+        return ("ok", canon(dict(m2._dict)), w)
+
+    def differing(self, fmt, before, after):
+        eq = form_eq if fmt == "urlencoded" else strict_eq
+        return sorted(k for k in set(before) | set(after)
+                      if k not in before or k not in after or not eq(before[k], after[k]))
+
+    def fails_alone(self, cls, k, v, fmt):
+        b = attempt(lambda: cls(set_defaults=False, **{k: copy.deepcopy(v)}))
+        if b[0] == "exc" or k not in b[1]._dict:
+            return False
+        r = self.roundtrip(cls, b[1], fmt, lax=True)
+        return r[0] == "exc" or bool(self.differing(fmt, canon(dict(b[1]._dict)), r[1]))
+
+    def base_culprits(self, name, cls, fmt):
+        """keys of the class's base message (its required parameters) that do not survive `fmt` on
+        their own: a failure of the whole message is theirs, and is reported in their own cell"""
+        ck = (name, fmt)
+        if ck not in self.culprits:
+            self.culprits[ck] = {k for k, v in C.base_kwargs(cls).items() if self.fails_alone(cls, k, v, fmt)}
+        return self.culprits[ck]
+
+    def family(self, ent):
+        from idpyoidc.message import Message
+        import typing
+        if ent is None:
+            return "extra"
+        typ, _, ser, deser, _ = ent
+        lst = isinstance(typ, list)
+        elem = typ[0] if lst and len(typ) == 1 else typ
+        ia = any("identity_assurance" in (getattr(f, "__module__", "") or "") for f in (ser, deser, elem) if f is not None)
+        if elem in (str, int, bool):
+            base = "list-of-str" if lst else "scalar"
+        elif elem is dict:
+            base = "dict-list" if lst else "dict"
+        elif isinstance(elem, type) and issubclass(elem, Message):
+            base = "message-list" if lst else "message"
+        elif elem is typing.Any:
+            base = "any"
+        else:
+            base = "opaque"
+        return ("ia-" if ia else "") + base
+
+    def violation(self, fmt, cls, key, before, after, exc, rec):
+        """classify an oracle failure into a stable signature: wire-format family x parameter family"""
+        ent = spec_for(cls, key) if key is not None else None
+        fam = "message" if key is None else self.family(ent)
+        ffam = {"urlencoded": "form", "dict": "json", "json": "json"}.get(fmt, fmt)
+        sig = "%s:%s" % (ffam, fam)
         if ent is not None and tier1(ent) in LISTK and key in before and isinstance(before[key], list) \
-                and any(isinstance(x, str) and " " in x for x in before[key]) and symptom == "altered":
+                and any(isinstance(x, str) and " " in x for x in before[key]) and exc is None:
             sig = "space-in-list-element"
         what = "%s round trip of %s changes the message: %s=%r becomes %r%s" % (
             fmt, rec["class"], key, before.get(key) if isinstance(before, dict) else None,
-            after.get(key) if isinstance(after, dict) else None, " (%s)" % exc if exc else "")
-        self.ctx.violation(sig, what, rec)
+            after.get(key, "<absent>") if isinstance(after, dict) else None, " (raises %s)" % exc if exc else "")
+        self.ctx.violation(sig, what, dict(rec, format=fmt))
         self.ctx.count("violation:" + sig)
+
+    def judge(self, fmt, name, cls, key, kwargs, before, res, rec):
+        """apply the oracle to the outcome `res` of one cycle; attribute failures to a parameter"""
+        ctx = self.ctx
+        if res[0] == "ok":
+            diff = self.differing(fmt, before, res[1])
+            if not diff:
+                return
+            if key is None:
+                self.violation(fmt, cls, diff[0], before, res[1], None, rec)
+            elif key in diff:
+                self.violation(fmt, cls, key, before, res[1], None, rec)
+            else:
+                ctx.count("difference-in-another-parameter(reported in its own cell)")
+            return
+        culprits = self.base_culprits(name, cls, fmt)
+        if key is not None and (key in culprits or not culprits):
+            if key in culprits or self.fails_alone(cls, key, kwargs[key], fmt):
+                self.violation(fmt, cls, key, before, {}, res[1], rec)
+            else:
+                self.violation(fmt, cls, None, before, {}, res[1], rec)
+            return
+        if key is None:
+            mine = [k for k in kwargs if k not in culprits and self.fails_alone(cls, k, kwargs[k], fmt)]
+            if mine:
+                self.violation(fmt, cls, mine[0], before, {}, res[1], rec)
+            elif not culprits:
+                self.violation(fmt, cls, None, before, {}, res[1], rec)
+            else:
+                ctx.count("failure-of-a-required-parameter(reported in its own cell)")
+            return
+        ctx.count("failure-of-a-required-parameter(reported in its own cell)")
 
     # ---- one cell: a class, the keyword arguments, the key under test
     def cell(self, name, cls, kwargs, key, model=True, formats=("dict", "json", "urlencoded")):
@@ -125,56 +209,32 @@ class Run:
         ctx.case_seen(rec, True)
         ctx.count("cells:" + ("fragment" if frag else "oracle-only"))
         missing_req = [k for k, e in cls.c_param.items() if e[1] and k not in m._dict]
-
-        if "dict" in formats:
-            d = attempt(lambda: copy.deepcopy(m).to_dict())
-            if frag:
+        for fmt in formats:
+            res = self.roundtrip(cls, m, fmt)
+            ctx.count("roundtrip:" + fmt)
+            if fmt == "urlencoded" and res[0] == "exc" and res[1] == "MissingRequiredAttribute" and missing_req:
+                ctx.count("urlencoded:refused-missing-required")
+                if frag:
+                    self.add_case("to_url", name, coq_msg(before), ("exc", res[1]), coq_str, rec)
+                continue
+            self.judge(fmt, name, cls, key, kwargs, before, res, rec)
+            # ---- the same steps for the model
+            if not frag:
+                continue
+            if fmt == "dict":
+                d = attempt(lambda: copy.deepcopy(m).to_dict())
                 self.add_case("to_dict", name, coq_msg(before), ("ok", canon(d[1])) if d[0] == "ok" else d, coq_msg, rec)
-            if d[0] == "exc":
-                self.violation("dict", cls, key, before, {}, d[1], rec)
-            else:
-                m2 = attempt(lambda: cls(**copy.deepcopy(d[1])))
-                if frag and self.in_fragment(cls, d[1]):
+                if d[0] == "ok" and self.in_fragment(cls, d[1]):
                     self.add_case("construct", name, coq_msg(d[1]),
-                                  ("ok", canon(dict(m2[1]._dict))) if m2[0] == "ok" else m2, coq_msg, rec)
-                if m2[0] == "exc":
-                    self.violation("dict", cls, key, before, {}, m2[1], rec)
-                elif not strict_eq(before, canon(dict(m2[1]._dict))):
-                    self.violation("dict", cls, key, before, canon(dict(m2[1]._dict)), None, rec)
-                ctx.count("roundtrip:dict")
-        if "json" in formats:
-            w = attempt(lambda: copy.deepcopy(m).to_json())
-            if w[0] == "exc":
-                self.violation("json", cls, key, before, {}, w[1], rec)
-            else:
-                m2 = attempt(lambda: cls().from_json(w[1]))
-                if m2[0] == "exc":
-                    self.violation("json", cls, key, before, {}, m2[1], rec)
-                elif not strict_eq(before, canon(dict(m2[1]._dict))):
-                    self.violation("json", cls, key, before, canon(dict(m2[1]._dict)), None, rec)
-                ctx.count("roundtrip:json")
-        if "urlencoded" in formats:
-            w = attempt(lambda: copy.deepcopy(m).to_urlencoded())
-            if frag:
+                                  ("ok", res[1]) if res[0] == "ok" else ("exc", res[1]), coq_msg, rec)
+            elif fmt == "urlencoded":
+                w = attempt(lambda: copy.deepcopy(m).to_urlencoded())
                 self.add_case("to_url", name, coq_msg(before), w, coq_str, rec)
-            if w[0] == "exc":
-                if not (w[1] == "MissingRequiredAttribute" and missing_req):
-                    self.violation("urlencoded", cls, key, before, {}, w[1], rec)
-                else:
-                    ctx.count("urlencoded:refused-missing-required")
-            else:
-                m2 = attempt(lambda: cls().from_urlencoded(w[1]))
-                if frag and all(ord(ch) < 128 for ch in w[1]):
-                    after = ("ok", canon(dict(m2[1]._dict))) if m2[0] == "ok" else m2
-                    if m2[0] == "exc" or pure_json(after[1]):
-                        self.add_case("from_url", name, coq_str(w[1]), after, coq_msg, rec)
-                if m2[0] == "exc":
-                    self.violation("urlencoded", cls, key, before, {}, m2[1], rec)
-                else:
-                    after = canon(dict(m2[1]._dict))
-                    if set(after) != set(before) or not all(form_eq(before[k], after[k]) for k in before):
-                        self.violation("urlencoded", cls, key, before, after, None, rec)
-                ctx.count("roundtrip:urlencoded")
+                if w[0] == "ok" and all(ord(ch) < 128 for ch in w[1]):
+                    if res[0] == "exc":
+                        self.add_case("from_url", name, coq_str(w[1]), ("exc", res[1]), coq_msg, rec)
+                    elif pure_json(res[1]):
+                        self.add_case("from_url", name, coq_str(w[1]), ("ok", res[1]), coq_msg, rec)
 
     # ---- the grid
     def values_for(self, ent, quick):
@@ -353,12 +413,26 @@ class Run:
                 ctx.count("jwt:base-refused")
                 continue
             is_idt = issubclass(cls, IdToken)
+            jwks = kj.export_jwks(private=True)
+
+            def judge_jw(fmt, before, m2, rec):
+                if m2[0] == "exc":
+                    self.violation(fmt, cls, None, before, {}, m2[1], rec)
+                    return
+                after = canon(dict(m2[1]._dict))
+                diff = self.differing(fmt, before, after)
+                if diff:
+                    self.violation(fmt, cls, diff[0], before, after, None, rec)
             for kt, alg in (sig if not ctx.quick else [rng.choice(sig)]):
                 m = cls(**copy.deepcopy(kw))
                 before = canon(dict(m._dict))
                 rec = {"class": name, "kwargs": canon(kw), "jwt_alg": alg}
-                iss = m._dict.get("iss", "") if isinstance(m._dict.get("iss", ""), str) else ""
-                keys = kj.get_signing_key(kt, "v" if iss == "v" else "")
+                iss = m._dict.get("iss", "")
+                iss = iss if isinstance(iss, str) else ""
+                if iss and iss not in kj:       # the verifier knows the issuer's keys
+                    kj.import_jwks(jwks, iss)
+                    kj.add_symmetric(iss, "A1B2C3D4E5F6G7H8A1B2C3D4E5F6G7H8")
+                keys = kj.get_signing_key(kt, iss)
                 w = attempt(lambda: m.to_jwt(key=keys, algorithm=alg))
                 ctx.case_seen(rec, w[0] == "ok")
                 if w[0] == "exc":
@@ -366,11 +440,7 @@ class Run:
                     continue
                 if is_idt:      # IdToken.pack adds iat (stated class-specific post-processing)
                     before = canon(dict(m._dict))
-                m2 = attempt(lambda: cls().from_jwt(w[1], kj))
-                if m2[0] == "exc":
-                    self.violation("jwt", cls, None, before, {}, m2[1], rec)
-                elif not strict_eq(before, canon(dict(m2[1]._dict))):
-                    self.violation("jwt", cls, None, before, canon(dict(m2[1]._dict)), None, rec)
+                judge_jw("jwt", before, attempt(lambda: cls().from_jwt(w[1], kj)), rec)
                 ctx.count("roundtrip:jwt:" + alg)
             for kt, alg, enc in (encs if not ctx.quick else [rng.choice(encs)]):
                 m = cls(**copy.deepcopy(kw))
@@ -382,11 +452,7 @@ class Run:
                 if w[0] == "exc":
                     self.violation("jwe", cls, None, before, {}, w[1], rec)
                     continue
-                m2 = attempt(lambda: cls().from_jwe(w[1], ek))
-                if m2[0] == "exc":
-                    self.violation("jwe", cls, None, before, {}, m2[1], rec)
-                elif not strict_eq(before, canon(dict(m2[1]._dict))):
-                    self.violation("jwe", cls, None, before, canon(dict(m2[1]._dict)), None, rec)
+                judge_jw("jwe", before, attempt(lambda: cls().from_jwe(w[1], ek)), rec)
                 ctx.count("roundtrip:jwe:" + alg)
 
     def run_model(self):
